@@ -222,9 +222,12 @@ def check_one_step(ctx, kind, m, subs, bnds, label, order=1, disjoint=True):
         return None
     # named subdomains: same region
     if tags_s:
-        if r.subdomains is None:
-            if not any('ubdomains invalidated' in w for w in wc.msgs):
-                ctx.fail(f'uniform-subdomains-dropped-silently:{cname}', 'named subdomains dropped without a warning', data)
+        if r.subdomains is None or any(k not in r.subdomains for k in tags_s):
+            # the escape "dropped with a warning" exists for boundaries only: every class must propagate subdomains
+            warned = any('ubdomains invalidated' in w for w in wc.msgs)
+            ctx.fail(f'uniform-subdomains-dropped:{cname}',
+                     'named subdomains dropped by refined() (' + ('with' if warned else 'WITHOUT') + ' a warning)',
+                     {**data, 'warned': warned})
         else:
             for name, ixs in tags_s.items():
                 want = st.expected_subdomain(ixs)
